@@ -115,6 +115,29 @@ InterpreterEnv::InterpreterEnv(std::vector<valtype>& stack_in, const CScript& sc
 
 bool CastToBool(const valtype& vch);
 
+static void UndoFailedStep(InterpreterEnv& env)
+{
+    // a failed operation leaves the session where it was, at the failing operation:
+    // put back what the operation already changed (pc has advanced past it), ...
+    env.stack = env.stack_history.back();
+    env.altstack = env.altstack_history.back();
+    env.pc = env.pc_history.back();
+    env.nOpCount = env.nOpCount_history.back();
+    env.vfExec = env.vfExec_history.back();
+    env.pbegincodehash = env.pbegincodehash_history.back();
+    env.execdata = env.execdata_history.back();
+    env.opcode_pos = env.opcode_pos_history.back();
+    // ... and drop the history entry pushed for it
+    env.stack_history.pop_back();
+    env.altstack_history.pop_back();
+    env.pc_history.pop_back();
+    env.nOpCount_history.pop_back();
+    env.vfExec_history.pop_back();
+    env.pbegincodehash_history.pop_back();
+    env.execdata_history.pop_back();
+    env.opcode_pos_history.pop_back();
+}
+
 bool StepScript(InterpreterEnv& env)
 {
     // tapscript commitments go first
@@ -150,27 +173,15 @@ bool StepScript(InterpreterEnv& env)
         env.execdata_history.push_back(env.execdata);
         env.opcode_pos_history.push_back(env.opcode_pos);
 
-        if (!StepScript(env, pc)) {
-            // a failed operation leaves the session where it was, at the failing operation:
-            // put back what the operation already changed (pc has advanced past it), ...
-            env.stack = env.stack_history.back();
-            env.altstack = env.altstack_history.back();
-            env.pc = env.pc_history.back();
-            env.nOpCount = env.nOpCount_history.back();
-            env.vfExec = env.vfExec_history.back();
-            env.pbegincodehash = env.pbegincodehash_history.back();
-            env.execdata = env.execdata_history.back();
-            env.opcode_pos = env.opcode_pos_history.back();
-            // ... and undo above pushes
-            env.stack_history.pop_back();
-            env.altstack_history.pop_back();
-            env.pc_history.pop_back();
-            env.nOpCount_history.pop_back();
-            env.vfExec_history.pop_back();
-            env.pbegincodehash_history.pop_back();
-            env.execdata_history.pop_back();
-            env.opcode_pos_history.pop_back();
-            return false;
+        try {
+            if (!StepScript(env, pc)) {
+                UndoFailedStep(env);
+                return false;
+            }
+        } catch (...) {
+            // an operation that throws (script number overflow, ...) has failed as well
+            UndoFailedStep(env);
+            throw;
         }
 
         // Update environment
